@@ -34,6 +34,7 @@ PROPS = {
         rules=["PtrValid", "PtrForbidden", "PtrRequired", "CompDecodes", "SinkSame"],
     ),
     "C04": dict(
+        mc=["MC_Sink"],
         runs=[dict(topic="sinks", gen=[dict(module="Gen_Packet", cfg="Gen_Packet.cfg", out="packet_cases.ndjson",
                   simulate=dict(quick="num=600", thorough="num=25000", depth=80))], shards=14),
               dict(topic="compress", gen=[dict(module="Gen_Packet", cfg="Gen_Packet.cfg", out="packet_cases.ndjson",
@@ -295,7 +296,11 @@ TEXT = {
         technique="TLA+ schema-aware pointer walker as oracle over recorded outputs; Impl compressor model-checked",
     ),
     "C04": dict(
-        text=("For packets of the builder state machine x {plain, compressed}: the writer-based entry points are run into a "
+        text=("Model: MC_Sink runs the record writer's program (write, remember position, placeholder, RDATA, seek back, "
+              "patch RDLENGTH, seek forward) over a growable Cursor<Vec> and a fixed Cursor<&mut [u8]> with std::io "
+              "semantics for every start offset, capacity and pre-existing content; TLC checks region = message, nothing "
+              "else touched, error iff too small, and refutes the pinned seek(End(0)) (negative configuration). Code: "
+              "for packets of the builder state machine x {plain, compressed}: the writer-based entry points are run into a "
               "growable Cursor<Vec> at offsets 0/2/7 over storage with no/shorter/longer pre-existing content, and into "
               "fixed &mut [u8] / Cursor<&mut [u8]> (offset 0 and 3) of every capacity 0..len+2; TLC checks that the "
               "written region equals the vector-returning entry point's bytes, nothing else in the storage changed, and "
